@@ -3,3 +3,5 @@ import FeemsProofs.Lemmas.KVLemmas
 import FeemsProofs.C18
 import FeemsProofs.C19
 import FeemsProofs.C17
+import FeemsProofs.Lemmas.PmsLemmas
+import FeemsProofs.C15
